@@ -28,7 +28,6 @@ import (
 const (
 	opHost     = "op.verif.test"
 	legacyHost = "legacy.verif.test"
-	frontHost  = "front.verif.test"
 	opIssuer   = "https://" + opHost
 )
 
@@ -113,38 +112,40 @@ func serve(h http.Handler, method, host, path string, vals url.Values, hdr func(
 	return opdrv.Serve(h, r, 0)
 }
 
-// frontHandler is a gateway in front of the provider at base: it serves a discovery document whose endpoints
-// point at itself and answers everything else with a 307 to the provider, so that every client call made
-// through it depends on the HTTP client following redirects.
-func frontHandler(base string, backend http.Handler, backendHost string) http.Handler {
-	redirect := inproc.Redirector(base, http.StatusTemporaryRedirect)
+// gateway wraps the handler mounted at a host with a redirecting gateway under /gw (same host, so that the HTTP
+// client keeps Authorization headers across the redirect):
+//
+//	/gw/.well-known/openid-configuration  the provider's discovery document with every *_endpoint moved to /gw/r/...
+//	/gw/r/<path>                          307 to /<path>
+//
+// Every client call made through it depends on the HTTP client following redirects.
+func gateway(h http.Handler) http.Handler {
 	return http.HandlerFunc(func(w http.ResponseWriter, r *http.Request) {
-		if r.URL.Path == oidc.DiscoveryEndpoint {
-			resp := serve(backend, "GET", backendHost, oidc.DiscoveryEndpoint, nil, nil)
+		switch {
+		case r.URL.Path == "/gw"+oidc.DiscoveryEndpoint:
+			resp := serve(h, "GET", r.Host, oidc.DiscoveryEndpoint, nil, nil)
 			var doc map[string]any
 			if resp.Status != 200 || json.Unmarshal(resp.Body.Bytes(), &doc) != nil {
-				http.Error(w, "front: backend discovery failed", http.StatusBadGateway)
+				http.Error(w, "gateway: backend discovery failed", http.StatusBadGateway)
 				return
 			}
+			base := "https://" + r.Host
 			for k, v := range doc {
-				s, ok := v.(string)
-				if !ok || !strings.HasSuffix(k, "_endpoint") {
-					continue
+				if s, ok := v.(string); ok && strings.HasSuffix(k, "_endpoint") && strings.HasPrefix(s, base+"/") {
+					doc[k] = base + "/gw/r" + strings.TrimPrefix(s, base)
 				}
-				doc[k] = strings.Replace(s, "https://"+backendHost, "https://"+r.Host, 1)
 			}
 			w.Header().Set("Content-Type", "application/json")
 			_ = json.NewEncoder(w).Encode(doc)
-			return
-		}
-		if strings.HasPrefix(r.URL.Path, "/redirect/") {
+		case strings.HasPrefix(r.URL.Path, "/gw/r/"):
 			u := *r.URL
-			u.Path = strings.TrimPrefix(r.URL.Path, "/redirect")
-			w.Header().Set("Location", base+u.RequestURI())
+			u.Path = strings.TrimPrefix(r.URL.Path, "/gw/r")
+			u.RawPath = ""
+			w.Header().Set("Location", "https://"+r.Host+u.RequestURI())
 			w.WriteHeader(http.StatusTemporaryRedirect)
-			return
+		default:
+			h.ServeHTTP(w, r)
 		}
-		redirect.ServeHTTP(w, r)
 	})
 }
 
@@ -179,13 +180,11 @@ func newBackend(o backendOpt) (*backend, error) {
 	atOp := w.Handlers[opdrv.RouterProvider]
 	switch {
 	case o.dynamic:
-		mux.Handle(legacyHost, w.Handlers[opdrv.RouterLegacy])
+		mux.Handle(legacyHost, gateway(w.Handlers[opdrv.RouterLegacy]))
 	case o.legacyOnOp:
 		atOp = w.Handlers[opdrv.RouterLegacy]
 	}
-	mux.Handle(opHost, atOp)
-	// the redirecting gateway in front of whatever is mounted at opHost
-	mux.Handle(frontHost, frontHandler(opIssuer, atOp, opHost))
+	mux.Handle(opHost, gateway(atOp))
 	return b, nil
 }
 
